@@ -200,6 +200,9 @@ def flatten_class(steps, style):
                           earlier run survive is not fixed by the property (counted, completeness not judged);
            'empty'      : a block without rows takes part in the merge.
     The label of the first non-benign junction (in run order) names the log."""
+    # blocks that printed no row do not take part in the merge (/repo d962039; before that repair they formed the
+    # classes 'empty-block' / 'after-empty-block', status 'empty')
+    steps = [S for S in steps if len(S) > 0] or steps[:1]
     if len(steps) == 1:
         return 'single', 'must-hold'
     M = set(steps[0])
